@@ -3,16 +3,20 @@
 # (patch /tmp/wt/<name>.patch.diff, demo /tmp/wt/<name>.demo.py); writes /tmp/wt/<name>.confirm.log
 n=$1; wt=/tmp/wt/$n; log=/tmp/wt/$n.confirm.log
 cd $wt || exit 2
+# the demo as the sub-agent left it inside the worktree (child interpreters of some demos find
+# loky through the script's own directory), else the copy next to the worktree
+demo=/tmp/wt/$n.demo.py
+[ -f $wt/demo_$n.py ] && demo=$wt/demo_$n.py
 : > $log
 git checkout -q -- loky tests 2>/dev/null
 git apply --check /tmp/wt/$n.patch.diff >> $log 2>&1 || { echo "PATCH-DOES-NOT-APPLY" >> $log; exit 1; }
 for i in 1 2; do
-  PYTHONPATH=$wt setsid timeout -k 5 120 /venv/bin/python /tmp/wt/$n.demo.py > /tmp/wt/$n.demo_clean_$i.log 2>&1 < /dev/null
+  PYTHONPATH=$wt setsid timeout -k 5 120 /venv/bin/python $demo > /tmp/wt/$n.demo_clean_$i.log 2>&1 < /dev/null
   echo "demo clean run $i exit=$?" >> $log
 done
 git apply /tmp/wt/$n.patch.diff
 for i in 1 2; do
-  PYTHONPATH=$wt setsid timeout -k 5 120 /venv/bin/python /tmp/wt/$n.demo.py > /tmp/wt/$n.demo_mut_$i.log 2>&1 < /dev/null
+  PYTHONPATH=$wt setsid timeout -k 5 120 /venv/bin/python $demo > /tmp/wt/$n.demo_mut_$i.log 2>&1 < /dev/null
   echo "demo mutated run $i exit=$?" >> $log
 done
 if [ "$2" != "notests" ]; then
